@@ -299,12 +299,18 @@ def c08_vectors(rng, nrandom):
     return out, boundary
 
 
-def recs_module(rows):
-    body = ",\n  ".join("[" + ", ".join("%s |-> %d" % (f, r[f]) for f in REC_FIELDS) + "]" for r in rows)
+def recs_module(rows, per_def=20):
+    """Backoff_Recs.tla for one run. The table is cut into definitions of 20 records: Apalache's type checker is
+    superlinear in the size of one definition (180 records in one set literal: 80 s; in 9 definitions: 17 s)."""
+    ty = ("\\* @type: Set({ n: Int, i: Int, m: Int, ra: Int, r: Int, r1: Int, si: Int, sm: Int, sra: Int, rc: Int, rc1: Int });\n")
+    parts = []
+    for k in range(0, len(rows), per_def):
+        body = ",\n  ".join("[" + ", ".join("%s |-> %d" % (f, r[f]) for f in REC_FIELDS) + "]" for r in rows[k:k + per_def])
+        parts.append(ty + "R%d == {\n  %s\n}\n" % (k // per_def, body))
     return ("---------------------------- MODULE Backoff_Recs ----------------------------\n"
             "(* generated: records of the real backoffDelay / WithExponentialBackoff *)\nEXTENDS Integers\n"
-            "\\* @type: Set({ n: Int, i: Int, m: Int, ra: Int, r: Int, r1: Int, si: Int, sm: Int, sra: Int, rc: Int, rc1: Int });\n"
-            "Recs == {\n  %s\n}\n=============================================================================\n" % body)
+            + "\n".join(parts) + ty + "Recs == " + " \\cup ".join("R%d" % k for k in range(len(parts)))
+            + "\n=============================================================================\n")
 
 
 def _input_class(v):
@@ -383,7 +389,9 @@ def run_c08(ctx, pid):
     if quick:
         rest = [v for v in allv if _input_class(v) == "other"]
         nb = len(rest) - 200 if len(rest) > 400 else len(rest) // 2      # the random ones come last
-        vectors = vlib.sample(ctx.rng, witness, 40) + vlib.sample(ctx.rng, rest[:nb], 90) + vlib.sample(ctx.rng, rest[nb:], 50)
+        vectors = (vlib.sample(ctx.rng, [v for v in witness if _input_class(v) == "DoubleWrap"], 45)
+                   + vlib.sample(ctx.rng, [v for v in witness if _input_class(v) == "Cap62"], 15)
+                   + vlib.sample(ctx.rng, rest[:nb], 130) + vlib.sample(ctx.rng, rest[nb:], 70))
     else:
         vectors = ce_vectors + allv
     vfile, ofile = ctx.tmp("vectors.ndjson"), ctx.tmp("records.ndjson")
@@ -396,7 +404,7 @@ def run_c08(ctx, pid):
             % (len(rows), sum(1 for v in vectors if _input_class(v) != "other")))
 
     violations, drift, known_classes = [], None, set()
-    chunk = 200 if quick else 500
+    chunk = 300 if quick else 600
     pending = [rows[k:k + chunk] for k in range(0, len(rows), chunk)]
     rounds = 0
     while pending:
